@@ -334,7 +334,14 @@ func streamPreds(seed uint64, n int, driver string, tier string) (*Summary, erro
 	}
 	// URL and Match: external matchers, compared with the standard library called directly
 	re := regexp.MustCompile(`^a+b?$`)
-	for _, s := range append(append([]string{}, subjects[:min(len(subjects), 400)]...), "http://a.b", "https://x", "http://", "//a.b", "a.b", "mailto:x@y", "http://a b", "ftp://h/p?q#f", "http://[::1]:80", "%zz", "aab", "ab", "b", "aaa") {
+	urlSubjects := append(append([]string{}, subjects[:min(len(subjects), 400)]...), "http://a.b", "https://x", "http://", "//a.b", "a.b", "mailto:x@y", "http://a b", "ftp://h/p?q#f", "http://[::1]:80", "%zz", "aab", "ab", "b", "aaa")
+	// URL-shaped strings: an authority followed by every short string over the characters that delimit URL parts
+	for _, base := range []string{"h://h", "http://example.com", "https://u:p@h:8443", "http://[::1]:80", "h:", "//h", "h://"} {
+		for _, tail := range shortStrings(3, []string{"#", "?", "/", "%", "z", ":", "@", "[", "]", " ", "1", ".", "\\"}) {
+			urlSubjects = append(urlSubjects, base+tail)
+		}
+	}
+	for _, s := range urlSubjects {
 		if s == "" {
 			continue
 		}
@@ -348,6 +355,9 @@ func streamPreds(seed uint64, n int, driver string, tier string) (*Summary, erro
 		sum.Evaluations++
 		if got != want {
 			sum.addViolation("C20", Mismatch{Case: "URL " + fmt.Sprintf("%q", s), What: fmt.Sprintf("URL test says %v, url.Parse with scheme and host says %v", got, want)})
+		}
+		if gotN := z.String().Not().URL().Parse(s, &d) == nil; gotN == want {
+			sum.addViolation("C20", Mismatch{Case: "Not().URL " + fmt.Sprintf("%q", s), What: fmt.Sprintf("the negated URL test says %v, url.Parse with scheme and host says %v", gotN, want)})
 		}
 		gotM := z.String().Match(re).Parse(s, &d) == nil
 		if gotM != re.MatchString(s) {
